@@ -23,7 +23,8 @@ def showEvent (e : Event) : String :=
 
 /-- canonical form of one operation's events: maximal runs of synthetic events sorted (their order is
     the directory listing order, which the model does not know), adjacent duplicates collapsed -/
-def canonEvents (evs : List Event) : List String :=
+def canonEvents (pevs : List PEv) : List String :=
+  let evs := pevs.map PEv.toEvent
   let strs := evs.map (fun e => (e.synthetic, showEvent e))
   let rec runs (l : List (Bool × String)) (cur : List String) (acc : List String) : List String :=
     match l with
@@ -47,11 +48,13 @@ def pipeLine (ts : List String) : String :=
       let k0 : Kern := ⟨[], 1, 1⟩
       let fs0 := initOps.foldl (fun fs op => (kernelOp fs k0 op).1) FS.init
       let s0 := Sys.start fs0 (bool01 rec) (bool01 full)
+      -- every operation the harness applied must be one the model's syscall guards accept
+      let allValid := (ops.foldl (fun (acc : FS × Bool) op => ((kernelOp acc.1 ⟨[], 1, 1⟩ op).1, acc.2 && validOp acc.1 op)) (fs0, true)).2
       let (fin, evs) := s0.run ops
       let tree := sortStr ((fin.fs.ents.filter (fun (e : Ent) => isUnder ["W"] e.path)).map
         (fun (e : Ent) => showP e.path ++ (if e.isDir then "/" else "")))
       some (" ; ".intercalate (evs.map (fun l => ",".intercalate (canonEvents l))) ++ " | tree=" ++ showList tree ++
-            s!" stopped={b01 fin.stopped} crashed={b01 fin.crashed}")).getD "bad-op"
+            s!" stopped={b01 fin.stopped} crashed={b01 fin.crashed} valid={b01 allValid}")).getD "bad-op"
   | _ => "bad-op"
 
 end WD.Driver
